@@ -5,6 +5,7 @@ go 1.26.8
 require (
 	github.com/honeytrap/honeytrap v0.0.0
 	github.com/mimoo/disco v0.0.0-20180114190844-15dd4b8476c9
+	github.com/op/go-logging v0.0.0-20160211212156-b2cb9fa56473
 	golang.org/x/crypto v0.0.0-20200128174031-69ecbb4d6d5d
 )
 
@@ -38,7 +39,6 @@ require (
 	github.com/mattn/go-isatty v0.0.3 // indirect
 	github.com/miekg/dns v1.0.4 // indirect
 	github.com/mimoo/StrobeGo v0.0.0-20171206114618-43f0c284a7f9 // indirect
-	github.com/op/go-logging v0.0.0-20160211212156-b2cb9fa56473 // indirect
 	github.com/pierrec/lz4 v0.0.0-20171218195038-2fcda4cb7018 // indirect
 	github.com/pierrec/xxHash v0.1.1 // indirect
 	github.com/pkg/errors v0.8.0 // indirect
